@@ -279,7 +279,7 @@ pub fn run(cx: &RunCtx) -> i32 {
     let kids: Vec<G> = kb.up_to(cx.t(2, 3));
     let nk = kids.len();
     let pair_bufs: Vec<Buf> = all_inputs(&alpha, cx.t(3, 4)).iter().map(|w| Buf::new(w)).collect();
-    let ext_stride = cx.t(1, 24);
+    let ext_stride = cx.t(1, 997);
     let pacc = for_each_index(nk * nk, cx.threads, 8, |acc, idx| {
         let (ga, gb) = (&kids[idx / nk], &kids[idx % nk]);
         // distinct ids so that probes of a and b are distinguishable
